@@ -15,7 +15,7 @@
     pre-image (hash lock, sender, recipient, amount); the harness checks the real SHA-256 values.
 
     Every statement is closed by [exact] of a lemma of [Htlc/Proofs.v]. *)
-From Irismod Require Import Htlc.Model Htlc.Proofs Htlc.Examples.
+From Irismod Require Import Htlc.Model Htlc.Proofs Htlc.Examples Htlc.Check Htlc.Sound.
 
 (** ** Reachable states satisfy the invariant (induction over the history) *)
 Theorem reachable_invariant :
@@ -170,6 +170,17 @@ Theorem no_contract_no_movement :
   forall s id, Inv s -> get id (st_contracts s) = None -> filter (ev_for id) (st_log s) = [].
 Proof. exact no_contract_no_events_lemma. Qed.
 Print Assumptions no_contract_no_movement.
+
+(** ** What the check evaluates lies inside these theorems: for every case accepted by the decidable
+    guard [hyps_b] (evaluated by [vm_compute] on every case; a case outside it fails the check), the
+    model state the implementation's observations are compared with after ANY number [n] of steps
+    satisfies the invariant, hence all of the above. *)
+Theorem c03_checked_states_satisfy_invariant :
+  forall (k : case) (n : nat), hyps_b k = true ->
+    Inv (case_state k n) /\ Strict (case_state k n) /\ Inv_C04 (case_state k n)
+    /\ st_params (case_state k n) = k_params k.
+Proof. exact checked_states_satisfy_invariant. Qed.
+Print Assumptions c03_checked_states_satisfy_invariant.
 
 (** ** Non-vacuity: the hypotheses hold of a concrete history ([Htlc/Examples.v]) that walks all
     three kinds of contract through claim, refund, duplicate, wrong secret, second claim, claim in
